@@ -113,6 +113,7 @@ def run(ctx):
         row = rows[t - 1]
         sc, ev = row["scen"], row["ev"][l - 1]
         op = ev["op"]
+        ndrops = sum(e.get("n", 0) for e in row["ev"] if e["op"] == "Drops")
         if op == "Infra":
             raise vlib.Undecided("simulator could not start: %s" % ev)
         if op == "Reads":
@@ -120,13 +121,19 @@ def run(ctx):
                 key = "C13/read/panic"
             elif ev["foreign"]:
                 key = "C13/read/foreign-delivered"
-            elif sc.get("pace") == "burst" and ev["class"] in ("truncated", "loss") and (t not in mech_of or mech_of[t] not in unexplained):
-                # frames sent back to back: more than the loss-free envelope computed from Agwpe.tla (%d frame)
-                key = "C13/loss/drop-when-full/burst"
+            elif ev["class"] in ("truncated", "loss") and (sc.get("pace") == "burst" or ndrops > 0) and (t not in mech_of or mech_of[t] not in unexplained):
+                # frames sent back to back (more than the loss-free envelope computed from Agwpe.tla), or a schedule in which the
+                # library's own log reports dropped frames (a starved demux goroutine loses paced frames too): the known finding
+                key = "C13/loss/drop-when-full"
             else:
                 key = "C13/read/%s/%s" % (ev["class"], sc.get("pace"))
             what = "bytes read differ from the concatenation of the connection's frames: %s (%d of %d bytes), schedule %s" % (
                 ev["class"], ev["got"], ev["want"], {k: v for k, v in sc.items() if k in ("kind", "port", "segs", "pace", "readbuf", "foreign", "readwait")})
+        elif ndrops > 0 and not ev.get("panic") and op in ("Api", "Exchange", "TncData", "Crash") and not sc.get("malform"):
+            # the TNC's replies (Y, C, d) go through the same demux: a schedule in which the library logged dropped frames and an
+            # exchange then timed out or failed is the known finding, not a new one
+            key = "C13/loss/drop-when-full"
+            what = "%s failed in a schedule in which the library logged %d dropped frame(s) (%s)" % (op, ndrops, {k: v for k, v in sc.items() if k in ("kind", "port", "pace", "segs", "writes")})
         elif op == "Api":
             key = "C13/api/%s%s" % (ev["call"], "/panic" if ev.get("panic") else "")
             what = "%s: %s %s (scenario %s)" % (ev["call"], ev.get("panic") or "", ev.get("err", ""), {k: v for k, v in sc.items() if k in ("kind", "port", "via", "reply")})
